@@ -116,7 +116,7 @@ func VerifIsProposalJustification(mv MessageValidator, share *ssvtypes.SSVShare,
 		return false, false
 	}
 	cfg := newQBFTConfig(mv.(*messageValidator).netCfg.Domain)
-	return instance.IsProposalJustification(cfg, share, rcj, pj, m.Message.Height, m.Message.Round, m.FullData) == nil, true
+	return instance.IsProposalJustification(cfg, share, m.Message.Identifier, rcj, pj, m.Message.Height, m.Message.Round, m.FullData) == nil, true
 }
 
 // Arithmetic kernels, for direct comparison with the model.
